@@ -1605,6 +1605,8 @@ def re1(P, C, floor=150):
     for f in sorted(P.functions.values(), key=lambda g: (g.file, g.line, g.qname)):
         if f.unit.startswith("selftest") or f.unit.startswith("tools/"):
             continue
+        if os.path.relpath(f.file, core.REPO).startswith("test" + os.sep) if f.file.startswith(core.REPO) else False:
+            continue            # the project's test programs (thorough tier) are not the library: their harness keeps a registry of tests
         n += 1
         bad = hidden_state(f)
         if bad:
